@@ -210,7 +210,8 @@ type c20Run struct {
 	mu     sync.Mutex
 	dead   map[int]bool
 	cur    int
-	holder int
+	holder int            // a thread that holds a storage lock (-1: none), for the choosers
+	held   map[string]int // storage lock name -> thread that holds it (mutual exclusion is per name, as in a Locker)
 	events []c20Event
 	script []c20Action
 	keys   map[string][2]int // storage key -> (ca, 0 reg / 1 key)
@@ -496,7 +497,7 @@ func c20RunHist(env *c20Env, email string, cas []int, choose c20Chooser, maxStep
 	}
 	certmagic.VerifAccountResetDiscoveredEmail()
 	r := &c20Run{env: env, b: doubles.NewMemBackend(), email: email, arrive: make(chan c20Arrival), dead: map[int]bool{}, cur: -1, holder: -1,
-		keys: map[string][2]int{}}
+		keys: map[string][2]int{}, held: map[string]int{}}
 	if kpIn != nil {
 		// configured-account-key mode: one key, its account at the production CA (or not), and
 		// the two account files in one of their nine initial conditions
@@ -591,7 +592,7 @@ func c20RunHist(env *c20Env, email string, cas []int, choose c20Chooser, maxStep
 				return (fmt.Errorf("c20 harness: step of thread %d which is not at a gate", a.T))
 			}
 			g := th.gate
-			if g.kind == c20KLock && !a.F && r.holder != -1 {
+			if _, busy := r.held[g.key]; g.kind == c20KLock && !a.F && busy {
 				return (fmt.Errorf("c20 harness: Lock step while the lock is held"))
 			}
 			if g.kind == c20KUnlock {
@@ -608,9 +609,14 @@ func c20RunHist(env *c20Env, email string, cas []int, choose c20Chooser, maxStep
 						ev.V = 1 // the account folder is listed
 					}
 				case c20KLock:
+					r.held[g.key] = a.T
 					r.holder = a.T
 				case c20KUnlock:
+					delete(r.held, g.key)
 					r.holder = -1
+					for _, h := range r.held {
+						r.holder = h
+					}
 				}
 			} else if g.kind == c20KOrder {
 				ev.V = 2
@@ -639,9 +645,15 @@ func c20RunHist(env *c20Env, email string, cas []int, choose c20Chooser, maxStep
 			r.dead[a.T] = true
 			r.cur = a.T
 			r.mu.Unlock()
-			if r.holder == a.T {
-				r.b.BreakLock(r.lockNm) // the staleness rule hands the lock on
-				r.holder = -1
+			for nm, h := range r.held {
+				if h == a.T {
+					r.b.BreakLock(nm) // the staleness rule hands the lock on
+					delete(r.held, nm)
+				}
+			}
+			r.holder = -1
+			for _, h := range r.held {
+				r.holder = h
 			}
 			th.state = 1
 			th.reply <- c20Reply{crash: true}
@@ -670,8 +682,8 @@ func c20RunHist(env *c20Env, email string, cas []int, choose c20Chooser, maxStep
 				unfinished++
 			case 2:
 				unfinished++
-				if th.gate.kind == c20KLock && r.holder != -1 {
-					continue // Storage.Lock would block: the lock is held
+				if _, busy := r.held[th.gate.key]; th.gate.kind == c20KLock && busy {
+					continue // Storage.Lock would block: this lock is held
 				}
 				enabled = append(enabled, c20Action{K: "step", T: t, C: th.c})
 			}
@@ -991,9 +1003,21 @@ func c20UrlTables(e *emit.Enc, ca, test string) {
 	sort.Strings(hs)
 	e.Len(len(hs))
 	for _, h := range hs {
-		e.Str(h).Bool(certmagic.SubjectIsInternal(h)).Bool(c20RefInternal(h))
+		imp, ref := certmagic.SubjectIsInternal(h), c20RefInternal(h)
+		e.Str(h).Bool(imp).Bool(ref)
+		c20RefHosts++
+		if imp && !ref && c20RefBad == "" {
+			c20RefBad = h
+		}
 	}
 }
+
+// hosts judged so far, and the first one that SubjectIsInternal accepts although it is not internal
+// by the harness's own reading (the hypothesis of C20_https_unless_really_internal)
+var (
+	c20RefHosts int
+	c20RefBad   string
+)
 
 // c20RefInternal is the harness's own reading of "internal address", written from the special-use
 // registries and not from certmagic's code: the names localhost, *.localhost, *.local, *.internal,
@@ -1046,7 +1070,8 @@ var c20Hosts = []string{"ca.example.com", "acme-v02.api.letsencrypt.org", "local
 	"a.home.arpa", "localhost.", "foo.local.", "foo.local..", "localhost.evil.com", "evillocalhost", "notlocal", "local", "internal", "x.internal.example.com",
 	"127.0.0.1", "127.1", "127.0.0.1.", "10.0.0.1", "172.16.5.5", "172.32.0.1", "192.168.1.1", "169.254.1.1", "8.8.8.8", "0.0.0.0", "0.0.255.1", "0.1.0.0",
 	"[::1]", "[fe80::1]", "[fc00::1]", "[fd12:3456::1]", "[2001:db8::1]", "[::ffff:127.0.0.1]", "[::ffff:8.8.8.8]", "[::8.8.8.8]", "::1", "[::1%25eth0]", "[::]",
-	"0x7f.0.0.1", "2130706433", "0177.0.0.1", "[64:ff9b::808:808]", "[100::1]", "[1::1]", "[::2]", "[::1.2.3.4]", "[1ff:ffff::1]", "[200::1]", "localhost%00.evil.com", "bücher.local", "ca.example.com.local", "LOCAL", ".local", "a.LOCAL", "example.İnternal", "", "-", "a b"}
+	"0x7f.0.0.1", "2130706433", "0177.0.0.1", "[fec0::1]", "[fe00::1]", "[ff02::1]", "[fbff::1]", "[febf::1]", "192.169.1.1", "169.255.1.1", "172.15.255.255", "172.31.255.255", "11.0.0.1", "128.0.0.1", "126.255.255.255",
+	"evilhome.arpa", "home.arpa", "xinternal", "alocalhost", "local.example.com", "internal.example.org", "[64:ff9b::808:808]", "[100::1]", "[1::1]", "[::2]", "[::1.2.3.4]", "[1ff:ffff::1]", "[200::1]", "localhost%00.evil.com", "bücher.local", "ca.example.com.local", "LOCAL", ".local", "a.LOCAL", "example.İnternal", "", "-", "a b"}
 var c20UserInfos = []string{"", "", "", "user@", "localhost@", "user:pass@", "127.0.0.1:80@", "localhost:80@", "@", "a@b@"}
 var c20Ports = []string{"", "", ":443", ":80", ":14000", ":", ":abc", ":99999", ":0"}
 var c20Paths = []string{"/dir", "/directory", "", "/a/b?x=y", "#frag", "?q=://", "/dir/../x", "\\dir", "/acme/://x", "/ "}
@@ -1077,6 +1102,7 @@ func runC20(tier string, seed int64, outdir string, replay string) error {
 	certmagic.RateLimitEvents, certmagic.RateLimitEventsWindow = 0, 0
 	env := c20NewEnv()
 	defer env.close()
+	c20RefHosts, c20RefBad = 0, ""
 
 	addHist := func(class string, email string, cas []int, choose c20Chooser, feats map[string]any) error {
 		if feats == nil {
@@ -1220,6 +1246,14 @@ func runC20(tier string, seed int64, outdir string, replay string) error {
 			effCA = certmagic.DefaultACME.CA
 		}
 		dir, err := certmagic.VerifAccountACMEDirectory(iss, useTest)
+		if !useTest {
+			// the account-less client (GetRenewalInfo) goes through the same rule
+			bdir, berr := certmagic.VerifAccountBasicACMEDirectory(iss)
+			if (berr == nil) != (err == nil) || bdir != dir {
+				dir, err = "newBasicACMEClient disagrees with newACMEClient: "+bdir+" / "+fmt.Sprint(berr), nil
+			}
+			w.Hist("url_basic_client_compared")
+		}
 		e := &emit.Enc{}
 		e.Int(1).Str(effCA).Str(test).Bool(useTest)
 		c20UrlTables(e, effCA, test)
@@ -1718,6 +1752,10 @@ func runC20(tier string, seed int64, outdir string, replay string) error {
 			u := sc + h + "/dir"
 			addURL(u, "", false)
 			addURL(good, u, true)
+			if sc == "http://" {
+				// with a port (SubjectIsInternal reads an IPv6 literal only when it has one)
+				addURL(sc+h+":8080/dir", "", false)
+			}
 		}
 	}
 	var jobs []contactJob
@@ -1753,6 +1791,7 @@ func runC20(tier string, seed int64, outdir string, replay string) error {
 	runContacts(jobs)
 
 	w.Meta.Oracles = append(w.Meta.Oracles, emit.OracleCheck{Name: "url.Parse yields a lower-case scheme (the rule compares it with \"https\" exactly) on every generated URL", OK: schemeLower, Detail: schemeBad})
-	w.Meta.Rule = "histories: distinct wire lines with at least one registration and either two threads reaching the registration lock or a fault / crash / CA reset; URL cases: distinct (CA, TestCA, useTestCA) whose CA is not a plain https URL or whose test CA is in use; contact cases: at least one contact seen; account-key cases: each combination of stored key / stored registration / CA knowledge / e-mail"
+	w.Meta.Oracles = append(w.Meta.Oracles, emit.OracleCheck{Name: fmt.Sprintf("every host that SubjectIsInternal accepts is an internal address by the harness's independent reading (special-use names, loopback / private / link-local / unspecified addresses): %d host judgements", c20RefHosts), OK: c20RefBad == "", Detail: c20RefBad})
+	w.Meta.Rule = "histories: distinct wire lines with at least one registration and either two threads reaching the registration lock or a fault / crash / CA reset; URL cases: distinct (CA, TestCA, useTestCA) whose CA is not a plain https URL or whose test CA is in use; contact cases: at least one contact seen; account-key cases: each combination of stored key / stored registration / CA knowledge / e-mail; account-key histories: distinct wire lines with a fault, a crash, two or more calls, or a Store"
 	return nil
 }
